@@ -77,10 +77,10 @@ impl Property for C17 {
             (Tier::Thorough, false) => 16,
             (Tier::Thorough, true) => 8,
         };
-        let src = prop_oneof![4 => Just(KeySource::Dealer), 1 => Just(KeySource::Dkg), 1 => Just(KeySource::DealerRefreshed), 1 => Just(KeySource::Repaired)];
+        let src = prop_oneof![4 => Just(KeySource::Dealer), 1 => Just(KeySource::Dkg), 1 => Just(KeySource::DealerRefreshed), 1 => Just(KeySource::Repaired), 1 => Just(KeySource::History(0))];
         (shape_strategy(nmax), idspec_strategy(None), src, subset_strategy(None), msg_short_strategy(), any::<u64>())
             .prop_map(move |(shape, ids, source, subset, msg, seed)| {
-                let shape = if source == KeySource::Dkg { Shape { n: shape.n.min(5), t: shape.t.min(shape.n.min(5)) } } else { shape };
+                let shape = if source.uses_dkg() { Shape { n: shape.n.min(5), t: shape.t.min(shape.n.min(5)) } } else { shape };
                 Case { shape, ids, source, subset, msg, mode, seed }
             })
             .boxed()
